@@ -171,6 +171,22 @@ PROPS["C07"] = dict(
     thorough=dict(shards=16, checks=5000, timeout_s=3600),
 )
 
+PROPS["C15"] = dict(
+    pkg="props/c15", level="exploration", engine="E-model", design_ref="§4 C15",
+    technique="model-based PBT (rapid): WriteNext programs with unsorted/repeated keys and injected data-/index-append failures (build-tag hook) vs list-of-successes oracle and metadata",
+    rule=("case = 0..40 WriteNext calls with mostly-ascending but perturbed keys (repeats, jumps back, empty key, varying lengths) and nil/empty/patterned values, each call tagged "
+          "{no fault, data-append fails, index-append fails} through the verif-tag hook VerifWrapWriters (failure model of the repository's failingRecordIoWriter), under generated "
+          "compression/bloom/buffer options; oracle: key <= last accepted => error, injected fault => error, after Close scan/Get = the successful writes in order, failed keys absent, "
+          "NumRecords/NullValues/MinKey/MaxKey/DataBytes/IndexBytes/TotalBytes truthful; non-trivial = >=1 ordering rejection, >=1 injected failure that is not the last call and >=2 "
+          "successes after it; distinct = distinct case JSON"),
+    level_text="Reference-list oracle over generated call programs x fault subsets x configurations; exploration because all three quantifiers are unbounded.",
+    level_note="the converse 'a strictly greater key without fault is accepted' is not in the statement and only labelled; faults are whole-call failures that do not touch the file (the repository's own test failure model)",
+    assumptions=COMMON_ASSUME + ["hook: sstables.VerifWrapWriters (tag verif) substitutes the writers of a stream writer the harness owns"],
+    require_labels=["ordering-rejection", "injected-failure"],
+    quick=dict(shards=16, checks=300),
+    thorough=dict(shards=16, checks=5000, timeout_s=3600),
+)
+
 NOT_APPLICABLE = {}
 
 
